@@ -417,7 +417,7 @@ class SQLParser:
         if scanner.search(AMTMark.NAME, ".", "*"):
             schema_name = scanner.pop_as_source()
             scanner.move(2)
-            return node.ASTWildcardExpression(table_name=schema_name)
+            return node.ASTWildcardExpression(table_name=cls._unify_name(schema_name))
         raise SqlParseError("无法解析为通配符表达式")
 
     @classmethod
@@ -425,7 +425,7 @@ class SQLParser:
         """直接解析为包含 schema 的通配符格式"""
         schema_name = scanner.pop_as_source()
         scanner.move(2)
-        return node.ASTWildcardExpression(table_name=schema_name)
+        return node.ASTWildcardExpression(table_name=cls._unify_name(schema_name))
 
     @classmethod
     def _parse_wildcard_expression_without_table(cls, scanner: TokenScanner) -> node.ASTWildcardExpression:
@@ -2268,7 +2268,7 @@ class SQLParser:
         scanner.match("=")
         column_value = cls._parse_logical_or_level_expression(scanner, sql_type)
         return node.ASTUpdateSetColumn(
-            column_name=column_name,
+            column_name=cls._unify_name(column_name),
             column_value=column_value
         )
 
